@@ -91,7 +91,7 @@ def _fuzz_job(st, job):
     res.cover["error_kinds"] = Counter(r["err_kinds"])
     res.cover["max_step_ratio"] = r["max_ratio"]
     res.cover["max_lexer_loop_ratio"] = r["max_loop_ratio"]
-    res.distinct.add(("%s-%d-%d" % (variant, seed, start)).encode())
+    res.distinct_extra += r["distinct"]
     for s in r["samples"][:1]:
         res.sample({"fuzz_input": s})
     if r["max_ratio"] > STEP_C:
@@ -262,8 +262,7 @@ def run(res):
                 "random code points/repetition) and token soups of corpus snippets x 3 modes x start offsets {0,1,400,65535,2^31,2^32-1-len,"
                 "2^32-2-len}, executed in-process in an overflow-checked/debug-assertion build and in the release build; plus %d "
                 "pathological families at depths 50..20000 with stack limits; a case is one (input, mode, offset) execution; "
-                "distinct counts fuzz shards and shapes (every execution inside a shard has a different seeded input)" % len(families()))
-    res.distinct |= {("exec-%d" % i).encode() for i in range(min(res.evaluations, 200000))}
+                "distinct = inputs distinct by hash of (mode, offset, text) with more than 4 bytes, counted inside the harness, plus shapes" % len(families()))
     res.assumptions = ["hook H2 step counters measure logical work", "stack bounds: 2 MiB at depth<=200 (checked build), 8 MiB at depth<=1000 (release)",
                        "inputs approaching 2^32 bytes are out of reach; offset arithmetic near 2^32 is reached through start offsets"]
 
